@@ -14,7 +14,7 @@ RULE = ("instruction level: every operator tree of depth 1 (3 operators x all ch
         "items) and depth 2 (3 operators x all ordered pairs over base items + depth-1 binary trees [quick: 3 base items]); thorough: every depth-3 tree combining a base item with a depth-2 binary tree over {mov,push} "
         "each alone and (depth 1, and depth 2 in thorough) in the context 'ret, T, ret' / 'T, ret'; operand level: every "
         "tree of depth 1..2 over 3 operand names placed as only operand item, before and after a plain operand item; "
-        "$deref level: every $or of 2..3 alternatives in each deref field; long-listing family: $and / $and_any_order / $or sequences whose only occurrence touches each 4096..65536 instruction boundary of listings up to 65539 (thorough 131075) instructions; wide/deep family: $or of 8/16/25 alternatives with the matching one first/middle/last, $and_any_order of 4 and 5 children (with duplicates) on every listing of length 4 / 5, nesting chains of depth 3..6; x EVERY listing up to the bound over the "
+        "$deref level: every $or of 2..3 alternatives in each deref field; long-listing family: $and / $and_any_order / $or sequences whose only occurrence touches each 4096..65536 instruction boundary of listings up to 65539 (thorough 131075) instructions; wide/deep family: $or of 8/16/25 alternatives with the matching one first/middle/last, $and_any_order of 4 and 5 children (with duplicates) on every listing of length 4 / 5, nesting chains of depth 3..6; the same group (1 or 2 children, each operator) written twice in one rule with different repetition counts; x EVERY listing up to the bound over the "
         "family's near-miss alphabet. Oracle: reference matcher (union / sequence / permutations with each child used "
         "once): verdict, spans genuine and record aligned. Non-trivial = reference finds the rule or its first item "
         "matches somewhere.")
@@ -120,6 +120,16 @@ def wide_deep_rules(tier):
     for ch in chains[2:]:
         rules.append(e1.RuleCase("deep", [ch], "wd", want=W))
         rules.append(e1.RuleCase("deep", ["ret", ch], "wd", want=W))
+    # the same group written twice in one rule with DIFFERENT repetition counts (and, over the run, in many rules compiled
+    # one after the other in this process): what is built for a group must depend on its own `times`
+    opt = {"min": 0, "max": 1}
+    for op in OPS:
+        for ch in (["mov"], ["mov", "push"], ["push", "mov"]):
+            for t1, t2 in ((2, None), (None, 2), (opt, None), (None, opt), (2, opt), (opt, 2)):
+                g1 = {op: list(ch), **({"times": t1} if t1 else {})}
+                g2 = {op: list(ch), **({"times": t2} if t2 else {})}
+                rules.append(e1.RuleCase("rep/twice", [g1, "ret", g2], "wd", want=W))
+                rules.append(e1.RuleCase("rep/twice", [g1, g2, "ret"], "wd", want=W))
     aa = {"$and_any_order": ["mov", {"$and_any_order": ["push", {"$and_any_order": ["ret", "mov"]}]}]}
     rules.append(e1.RuleCase("deep/aao3", [aa], "wd4", want=W))
     return rules
